@@ -37,6 +37,12 @@ def n_cases(tier):
 
 
 def gen_case(rng, tier, idx):
+    if idx % 40 == 39:
+        # sparse windows smaller than one bus word: which of them a word address selects is not defined at word
+        # resolution (not asserted), but "at most one subordinate sees the cycle signal" is
+        dw = rng.choice([16, 32, 64])
+        return {"kind": "subword", "dw": dw, "gran": 8, "aw": rng.choice([2, 3, 4, 6]), "n": rng.randint(2, 5),
+                "features": [f for f in ALL_FEATURES if rng.random() < 0.3], "cycles": 150 if tier == "quick" else 400}
     dw = rng.choice([8, 16, 32, 64])
     gran = rng.choice([g for g in (8, 16, 32, 64) if g <= dw])
     gbits = (dw // gran).bit_length() - 1
@@ -48,8 +54,50 @@ def gen_case(rng, tier, idx):
             "cycles": (250 if tier == "quick" else 700) * (8 if rng.random() < 0.04 else 1)}
 
 
+def run_subword(case, rng):
+    aw, dw, gran = case["aw"], case["dw"], case["gran"]
+    gbits = (dw // gran).bit_length() - 1
+    dfeat = set(case["features"])
+    dec = wishbone.Decoder(addr_width=aw, data_width=dw, granularity=gran, features=dfeat)
+    subs = []
+    for i in range(case["n"]):
+        s_aw = rng.choice([0, 1, 1, gbits - 1]) if gbits > 1 else 0
+        sub = wishbone.Interface(addr_width=s_aw, data_width=gran, granularity=gran,
+                                 features={f for f in dfeat if rng.random() < 0.5}, path=(f"b{i}",))
+        sub.memory_map = MemoryMap(addr_width=max(1, s_aw), data_width=gran)
+        try:
+            dec.add(sub, sparse=True)
+            subs.append(sub)
+        except ValueError:
+            pass
+    mon = Mon()
+    bus = dec.bus
+
+    async def bench(ctx):
+        for c in range(case["cycles"]):
+            mon.cycle = c
+            ctx.set(bus.adr, rng.randrange(1 << aw))
+            ctx.set(bus.cyc, int(rng.random() < 0.8))
+            ctx.set(bus.stb, rng.getrandbits(1))
+            ctx.set(bus.sel, rng.getrandbits(dw // gran))
+            seen = [i for i, s in enumerate(subs) if ctx.get(s.cyc)]
+            mon.log({"c": c, "adr": ctx.get(bus.adr), "cyc": ctx.get(bus.cyc), "subordinates_seeing_cyc": seen})
+            mon.ok("one_cyc", len(seen) <= 1, f"{len(seen)} sub-word sparse subordinates see cyc at once: {seen}")
+            if len(seen) == 1:
+                mon.count("subword_window_selected")
+            await ctx.tick()
+
+    simulate(Top({"dec": dec}), bench, mon)
+    mon.count("cycles", mon.cycle + 1)
+    mon.count("designs_with_sub_word_sparse_windows")
+    return mon.result(nontrivial=len(subs) >= 2, summary={"kind": "subword", "aw": aw, "dw": dw, "n": len(subs),
+                                                          "stim": case["stim_seed"]})
+
+
 def run_case(case):
     rng = random.Random(case["stim_seed"])
+    if case.get("kind") == "subword":
+        return run_subword(case, rng)
     aw, dw, gran = case["aw"], case["dw"], case["gran"]
     gbits = (dw // gran).bit_length() - 1
     map_aw = max(1, aw + gbits)
